@@ -69,6 +69,7 @@ struct regel {
 	bool is_state;
 	char idtext[24];
 	bool remove_sent;
+	char params[300]; /* the params object of the add, for the retry of refused adds */
 };
 static struct regel regs[40];
 static int nregs;
@@ -103,6 +104,9 @@ static void register_request(int c, const cJSON *rq)
 	char *t = id ? cJSON_PrintUnformatted(id) : NULL;
 	snprintf(r->idtext, sizeof(r->idtext), "%s", t ? t : "");
 	free(t);
+	char *pt = cJSON_PrintUnformatted(cJSON_GetObjectItemCaseSensitive(rq, "params"));
+	snprintf(r->params, sizeof(r->params), "%s", pt && strlen(pt) < sizeof(r->params) ? pt : "");
+	free(pt);
 }
 static void register_text(int c, const char *t)
 {
@@ -165,6 +169,31 @@ static void check_element_integrity(void)
 		if (jx_is_success(resp)) {
 			fail15("acknowledged-element-lost", "the add of '%s' was acknowledged, its owner is still connected and nobody removed it, but a fresh subscriber is not told about it", r->path);
 		}
+	}
+	/* a refused add leaves the path free: the same add, sent again by a fresh peer now that memory is available, must not find
+	 * the path occupied (and must not trip over a stale index entry) */
+	for (int k = 0; k < nregs; k++) {
+		struct regel *r = &regs[k];
+		if (seen[k] || r->idtext[0] == 0 || r->params[0] == 0 || r->owner < 0) {
+			continue;
+		}
+		cJSON *id = cJSON_Parse(r->idtext);
+		struct cl_msg *resp = id ? jx_find_response(r->owner, id, 0) : NULL;
+		cJSON_Delete(id);
+		if (resp == NULL || resp->cls != MC_ERROR || jx_error_code(resp) != -32603) {
+			continue; /* only adds that were refused with an internal error (out of memory) */
+		}
+		int from = clients[v].nmsgs;
+		jx_sendf(v, "{\"id\":\"retry%d\",\"method\":\"add\",\"params\":%s}", k, r->params);
+		jx_settle();
+		char rid[16];
+		snprintf(rid, sizeof(rid), "retry%d", k);
+		struct cl_msg *rr = jx_find_response_str(v, rid, from);
+		bool occupied = rr != NULL && rr->cls == MC_ERROR && cJSON_GetObjectItemCaseSensitive(cJSON_GetObjectItemCaseSensitive(cJSON_GetObjectItemCaseSensitive(rr->json, "error"), "data"), "exists") != NULL;
+		if (rr == NULL || occupied) { /* any other error means the request was not acceptable in the first place */
+			fail15("refused-add-left-path-occupied", "the add of '%s' was refused for lack of memory; the same add by a fresh peer afterwards is answered with %.160s", r->path, rr ? rr->text : "(nothing)");
+		}
+		xp_count("refused_adds_retried", 1);
 	}
 	sim_client_fin(v);
 	jx_settle();
@@ -623,6 +652,6 @@ const struct driver drv_c15 = {
     .name = "c15",
     .property = "C15",
     .run = run,
-    .rule = "27 scenarios (connect on each listener, refused HTTP request, add state/method/with access groups, add error paths, remove, change, fetch with matchers + later events, unfetch, get, routed set with reply / error reply, call with timeout and late reply, owner leaves with requests in flight, requester leaves / is reset while owning, fetching and in flight, config/info/garbage, authenticate, passwd, batch, websocket add/ping/fragment, websocket close, websocket set and fetch, SIGTERM with peers) x the n-th allocation after the preamble returning NULL for every n from 1 to the number of allocations the scenario performs (runs with larger n repeat the reference run and are not counted); deviation budget 1: a second allocation fails k allocations after the first for every k in the window; fill=1: heap filled to the configured cap first; oracle: no crash / sanitizer report, every request id answered at most once, bystander not dropped and served, a fresh connection is served, every element is still of the kind it was added as and acknowledged elements are not lost, idle baseline (peers, heap, descriptors, timers) after all leave, descriptor hygiene, clean SIGTERM exit; findings keyed by (class, scenario, function containing the failing allocation); non-trivial = runs in which an allocation actually failed",
+    .rule = "27 scenarios (connect on each listener, refused HTTP request, add state/method/with access groups, add error paths, remove, change, fetch with matchers + later events, unfetch, get, routed set with reply / error reply, call with timeout and late reply, owner leaves with requests in flight, requester leaves / is reset while owning, fetching and in flight, config/info/garbage, authenticate, passwd, batch, websocket add/ping/fragment, websocket close, websocket set and fetch, SIGTERM with peers) x the n-th allocation after the preamble returning NULL for every n from 1 to the number of allocations the scenario performs (runs with larger n repeat the reference run and are not counted); deviation budget 1: a second allocation fails k allocations after the first for every k in the window; fill=1: heap filled to the configured cap first; oracle: no crash / sanitizer report, every request id answered at most once, bystander not dropped and served, a fresh connection is served, every element is still of the kind it was added as, acknowledged elements are not lost and an add refused for lack of memory can be repeated successfully by a fresh peer, idle baseline (peers, heap, descriptors, timers) after all leave, descriptor hygiene, clean SIGTERM exit; findings keyed by (class, scenario, function containing the failing allocation); non-trivial = runs in which an allocation actually failed",
     .assumptions = "the connection on which the request with the failing allocation arrived may be dropped (counted as requester_dropped); every other connection must survive|allocation = malloc/calloc/realloc calls made by daemon objects (cjet_malloc and raw malloc in websocket.c / compression.c / zlib / cJSON hooks)",
 };
